@@ -38,12 +38,12 @@ claims = {
  "C05": dict(level="proof",
    text=("Raw in-child mount sequence (forkAndExecInChild, model K): loop invariant over all mount entries (each mounted with exactly its source/target/type/flags/data; bind-read-only entries remounted with at least their own flags plus REMOUNT), "
          "pivot_root -> detach old root -> remove it -> read-only remount of / required at exec whenever a pivot root is configured; bit-level facts proved as bv lemmas. "),
-   note=TRUST + "kernel models K (raw child) and M (package syscall mounts); precondition: mount targets are distinct pointers. Container side: mount.Mount.Mount (each configured mount issued with exactly its own arguments; read-only binds remounted on the same target with at least their own flags plus MS_REMOUNT), container initFileSystem (root tmpfs -> chdir -> all configured mounts -> pivot_root(ContainerRoot) -> lazy unmount and removal of exactly the old root -> symlinks and masks only after pivot+detach -> nil only if the last remount of / was read-only), maskPath. initContainer/handleConf are not under contract, so initFileSystem is proved under its own precondition (fresh mount state); mount.Builder is not under contract. That these mounts make the host unreachable is kernel behaviour.",
+   note=TRUST + "kernel models K (raw child) and M (package syscall mounts); precondition: mount targets are distinct pointers. Container side: mount.Mount.Mount (each configured mount issued with exactly its own arguments; read-only binds remounted on the same target with at least their own flags plus MS_REMOUNT), container initFileSystem (root tmpfs -> chdir -> all configured mounts -> pivot_root(ContainerRoot) -> lazy unmount and removal of exactly the old root -> symlinks and masks only after pivot+detach -> nil only if the last remount of / was read-only), maskPath. initContainer/handleConf are not under contract, so initFileSystem is proved under its own precondition (fresh mount state); mount.Builder.WithBind/WithTmpfs/WithProcRW are under contract (a bind declared read-only carries MS_BIND|MS_RDONLY, every bind is nosuid, tmpfs nosuid|nodev, proc nosuid|nodev|noexec and read-only unless asked); Builder.Build/FilterNotExist (raw syscall parameter marshalling) are not. That these mounts make the host unreachable is kernel behaviour.",
    design_ref="DESIGN.md §4 C05"),
  "C06": dict(level="proof",
    text=("Descriptor shuffle of forkAndExecInChild proved with quantified loop invariants over the ghost descriptor table for all lists (length, order, repeats, close markers, overlaps with the scratch area and with the sync/exec descriptors): "
          "at exec slot k holds the caller's k-th file with CLOEXEC clear (or is closed for a marker), every descriptor >= len is CLOEXEC; frame: no store to caller-visible memory (found and fixed: Runner.ExecFile write-back); prepareFds."),
-   note=TRUST + "A-FD: every descriptor open in the launching process is CLOEXEC. For the container init this is discharged in part: closeOnExecAllFds marks every entry of the /proc/self/fd listing close-on-exec, stdio included (loop invariant over the listing), and handleExecve marks the received descriptors (closeOnExecFds); that the listing is complete and that Go's runtime opens its own descriptors CLOEXEC is assumed. Listed descriptors differ from the fresh socketpair.",
+   note=TRUST + "A-FD: every descriptor open in the launching process is CLOEXEC. For the container init this is discharged in part: closeOnExecAllFds marks every entry of the /proc/self/fd listing close-on-exec, stdio included (loop invariant over the listing), and handleExecve marks the received descriptors (closeOnExecFds); that the listing is complete and that Go's runtime opens its own descriptors CLOEXEC is assumed. Listed descriptors differ from the fresh socketpair. The container's control socket is marked close-on-exec when it is wrapped (unixsocket.NewSocket).",
    design_ref="DESIGN.md §4 C06"),
  "C07": dict(level="proof",
    text=("Child side of the sync gate (forkAndExecInChild, model K): exec is reachable with a sync callback configured only after the ready word was written to and the ack read from the sync socket (same open file), in that order; "
